@@ -157,7 +157,10 @@ def normalize_key(
     shape_index = 0
     internal_shape_index = 0
 
-    for axis, (mask, k) in enumerate(zip(shape_mask, key)):
+    # A key for `dump` names only the external axes (in order), every other key names all axes.
+    axis_mask = (True,) * expected_rank if for_dump else shape_mask
+
+    for axis, (mask, k) in enumerate(zip(axis_mask, key)):
         if mask:
             axis_size = shape[shape_index]
             shape_index += 1
